@@ -28,9 +28,20 @@ def replay(prop, path):
     print(render.program(prog))
     out = runner.run_program(prog, opts={"reexport_every": 1})
     spec = pipeline.SPECS[prop]
-    bad = [f for f in out.findings if pipeline.owned_by(spec, f)]
+    from .. import kf
+
+    entries = kf.load()
+    bad = []
     for f in out.findings:
-        print(("OWNED " if f in bad else "other ") + f.brief())
+        if not pipeline.owned_by(spec, f):
+            print("other " + f.brief())
+            continue
+        e = kf.classify(entries, prop, f, prog, None)
+        if e is not None:
+            print(f"KNOWN-FINDING: property={prop} {e['id']} " + f.brief())
+        else:
+            print("OWNED " + f.brief())
+            bad.append(f)
     if bad:
         print(f"VIOLATION property={prop} replay={path}")
         return 1
